@@ -386,6 +386,14 @@ fn run_walk(c: &[Sexp]) -> Sexp {
 // ------------------------------------------------------------------------------------------------
 // localization mode (C18)
 
+/// A caller-defined matcher for Localization::remove_resource_id: equal to every resource id whose value starts with the prefix.
+struct PrefixMatcher(String);
+impl PartialEq<ResourceId> for PrefixMatcher {
+    fn eq(&self, other: &ResourceId) -> bool {
+        other.value.starts_with(&self.0)
+    }
+}
+
 fn dec_res(x: &Sexp) -> ResourceId {
     let l = x.as_list();
     ResourceId::new(
@@ -433,6 +441,11 @@ fn run_localization(c: &[Sexp]) -> Sexp {
             }
             "rm" => {
                 let n = loc.remove_resource_id(dec_res(&o[1]));
+                out.push(list(vec![sym("len"), int(n as i64)]));
+            }
+            "rmprefix" => {
+                // remove_resource_id is generic over T: PartialEq<ResourceId>: a matcher that equals EVERY id with a given prefix
+                let n = loc.remove_resource_id(PrefixMatcher(o[1].as_str().to_string()));
                 out.push(list(vec![sym("len"), int(n as i64)]));
             }
             "rms" => {
